@@ -188,6 +188,74 @@ def rejected_join(a1: bool, n1: bool, n2: bool, dup: bool, x: int, y: int, z: in
     return hx.end(_check_i3(m, residents, "after a %s join" % ("successful" if joined else "rejected")) is True)
 
 
+def install_populated(a1: bool, a2: bool, b1: bool, b2: bool, use_setter: bool) -> bool:
+    """
+    post: _
+    """
+    # a world that is populated BEFORE it becomes the model's environment (its agents joined through the API while
+    # world.model was already the model), then installed with set_environment() or by assignment
+    hx.begin()
+    kind = hx.P['world']
+    m = Model()
+    if kind == 'plain':
+        w = Environment(m, id="W")
+    elif kind == 'space':
+        w = Env.SpaceWorld(m, 5, 4, 3)
+    else:
+        w = _REAL[kind]
+        w.agents = {}
+        w.components = {}
+        w.set_model(m)
+    residents = [_mk_agent(m, "r0", a1, a2, False), _mk_agent(m, "r1", b1, b2, True)]
+    for a in residents:
+        w.add_agent(a)
+    if use_setter:
+        m.set_environment(w)
+    else:
+        m.environment = w
+    if a1 or a2 or b1 or b2:
+        hx.reach('populated')
+    if not hx.same_seq(list(m.environment.agents.values()), residents):
+        return hx.end(hx.fail("residents after installing the world"))
+    if _check_i3(m, residents, "after installing a populated world") is not True:
+        return hx.end(False)
+    late = _mk_agent(m, "late", True, False, False)
+    m.environment.add_agent(late)
+    return hx.end(_check_i3(m, residents + [late], "after a join in the installed world") is True)
+
+
+def refused_deregister(a1: bool, a2: bool, ti: int, owner: int) -> bool:
+    """
+    pre: 0 <= ti < 2 and 0 <= owner < 2
+    post: _
+    """
+    # the scheduler's explicit deregister call for a component that is not registered is refused and changes nothing:
+    # a type nobody has is still reported as having none
+    hx.begin()
+    m = Model()
+    env = m.environment
+    res = _mk_agent(m, "r0", a1, a2, False)
+    env.add_agent(res)
+    outsider = _mk_agent(m, "out", True, True, False)        # never joined: its components are not registered
+    T = hx.pick(TYPES, ti)
+    comp = outsider.components[T] if owner == 0 else T(res, m)
+    try:
+        m.systems.deregister_component(comp)
+        return hx.end(hx.fail("deregistering an unregistered component was accepted"))
+    except KeyError:
+        hx.reach('refused')
+    if _check_i3(m, [res], "after a refused explicit deregister") is not True:
+        return hx.end(False)
+    # after the last owner of a type left, a refused deregister must not resurrect an empty listing either
+    env.remove_agent("r0")
+    try:
+        m.systems.deregister_component(comp)
+        return hx.end(hx.fail("deregistering an unregistered component was accepted"))
+    except KeyError:
+        pass
+    return hx.end(_check_i3(m, [], "after everyone left and a refused deregister") is True)
+
+
 # ------------------------------------------------------------------------------------------------ histories
 
 def _apply(m, env, agents, resident, op, ai, ti):
@@ -590,6 +658,9 @@ def obligations(tier):
           timeout=600, encoded=senc, bounds={"residents": "2", "worlds": ",".join(sp_worlds)}),
         X("rejected_join", rejected_join, parts=[{"world": w} for w in ["plain"] + sp_worlds], labels=("rejected",), timeout=600,
           encoded=senc, bounds={"residents": 2, "position": "all ints", "cause": "duplicate id / out of bounds on any axis and side"}),
+        X("install_populated", install_populated, parts=[{"world": w} for w in ["plain"] + sp_worlds], labels=("populated",), timeout=600,
+          encoded=senc + (Model.set_environment,)),
+        X("refused_deregister", refused_deregister, labels=("refused",), timeout=300, encoded=enc),
         X("history", history, parts=_hist_parts(k, ["plain"]), labels=tuple(_LABEL_OF.values()), labels_for=_hist_labels,
           timeout=300, group=6, encoded=enc,
           bounds={"operations": "<= %d over {join, leave, offline attach/detach, resident register (order-preserving), resident deregister}" % k}),
